@@ -2,11 +2,12 @@
 """Re-runs the quick check of every seeded change (as a build overlay) and reports which are (still) caught."""
 import glob, json, os, re, subprocess, sys
 bad = 0
-for d in sorted(glob.glob('/verif/seeded/*/')):
+ROOT = os.path.dirname(os.path.dirname(os.path.abspath(__file__)))
+for d in sorted(glob.glob(ROOT + '/seeded/*/')):
     m = json.load(open(d + 'meta.json'))
     props = re.findall(r'C\d\d', m['detection']['check'].split('(')[0]) or [m['property']]
     prop = props[0]
-    r = subprocess.run(['/verif/selftest/run.py', '--patch', d + 'patch.diff', '--props', prop, '--no-suite'], capture_output=True, text=True)
+    r = subprocess.run([ROOT + '/selftest/run.py', '--patch', d + 'patch.diff', '--props', prop, '--no-suite'], capture_output=True, text=True)
     ok = '-> ok' in r.stdout
     print(('caught ' if ok else 'MISSED ') + prop + ' ' + os.path.basename(d.rstrip('/')), flush=True)
     bad += 0 if ok else 1
